@@ -186,6 +186,8 @@ pub struct Outcome {
     pub markers: Vec<Marker>,
     pub log: Vec<String>,
     pub fee_mode: FeeMode,
+    /// the fee request in force when balancing ran was a fixed fee (a later request may have replaced it)
+    pub fee_fixed_at_balancing: bool,
     /// cost models handed to calc_script_data_hash: language tag (1,2,3) -> costs
     pub cost_models: Option<BTreeMap<u8, Vec<i128>>>,
     pub script_hash_called_last: bool,
@@ -385,6 +387,25 @@ impl<'a> Scn<'a> {
             out.set_script_ref(s);
         }
         TransactionUnspentOutput::new(&Self::tx_input(&(u.txid.clone(), u.ix)), &out)
+    }
+    /// now and then a caller's bookkeeping lists a token it no longer holds: a zero quantity, or a policy with
+    /// no asset under it. The value is the same value
+    pub fn sloppy(&mut self, v: Value) -> Value {
+        if self.r.below(24) != 0 {
+            return v;
+        }
+        let mut ma = v.multiasset().unwrap_or(MultiAsset::new());
+        let pol = ScriptHash::from_bytes(vec![0xEE; 28]).unwrap();
+        if self.r.bool() {
+            let mut a = Assets::new();
+            a.insert(&AssetName::new(vec![0x7a]).unwrap(), &BigNum::from(0u64));
+            ma.insert(&pol, &a);
+            self.log.push("(the next input's value lists a token with quantity 0)".into());
+        } else {
+            ma.insert(&pol, &Assets::new());
+            self.log.push("(the next input's value lists a policy with no asset under it)".into());
+        }
+        Value::new_with_assets(&v.coin(), &ma)
     }
     /// now and then the UTxO `i` itself carries a script nobody needs: spending it is charged the
     /// reference-script fee exactly like a reference input (ledger: inputs and reference inputs together)
@@ -1313,7 +1334,8 @@ pub fn run_scenario(r: &mut Rng, ring: &KeyRing, f: Focus) -> Option<Outcome> {
                 let i = s.new_utxo(&addr, val.clone());
                 let o = s.outpoint(i);
                 let res = if use_direct_api {
-                    g!(s, "add_regular_input", tb.add_regular_input(&addr, &Scn::tx_input(&o), &val_to_csl(&val)))
+                    let sv = s.sloppy(val_to_csl(&val));
+                    g!(s, "add_regular_input", tb.add_regular_input(&addr, &Scn::tx_input(&o), &sv))
                 } else {
                     let carried = s.carried_script(i);
                     let u = s.csl_utxo(i, None, carried.as_ref());
@@ -1499,7 +1521,7 @@ pub fn run_scenario(r: &mut Rng, ring: &KeyRing, f: Focus) -> Option<Outcome> {
     }
 
     // ---------------------------------------------------------------- fee request
-    let fee_mode = match s.r.below(10) {
+    let mut fee_mode = match s.r.below(10) {
         0 => FeeMode::MinFee(*s.r.pick(&[0u64, 200_000, 1_000_000, 70_000, 5_000_000])),
         1 => FeeMode::Exact(*s.r.pick(&[300_000u64, 1_000_000, 2_000_000, 65_536])),
         _ => FeeMode::Unspecified,
@@ -1612,7 +1634,8 @@ pub fn run_scenario(r: &mut Rng, ring: &KeyRing, f: Focus) -> Option<Outcome> {
             let addr = s.key_address(k);
             let i = s.new_utxo(&addr, v.clone());
             let o = s.outpoint(i);
-            let r = g!(s, "add_regular_input(top-up)", tb.add_regular_input(&addr, &Scn::tx_input(&o), &val_to_csl(&v)));
+            let sv = s.sloppy(val_to_csl(&v));
+            let r = g!(s, "add_regular_input(top-up)", tb.add_regular_input(&addr, &Scn::tx_input(&o), &sv));
             s.log.push(format!("top-up key input key{} coin={} assets={} -> {}", k, v.coin, v.assets.len(), r.as_ref().map(ok_str).unwrap_or("PANIC".into())));
         }
         balance = if s.p(3) { Balance::AddChangeWithDatum } else { Balance::AddChange };
@@ -1672,6 +1695,27 @@ pub fn run_scenario(r: &mut Rng, ring: &KeyRing, f: Focus) -> Option<Outcome> {
         cost_models = do_hash(&mut s, &mut tb);
     }
 
+    // now and then the fee request comes (or is changed) after balancing: the request in force at build time is
+    // the one a built transaction has to honour
+    let fee_fixed_at_balancing = matches!(fee_mode, FeeMode::Exact(_));
+    if balance_result.is_ok() && s.r.below(20) == 0 {
+        let cur: u64 = tb.get_fee_if_set().map(|f| f.into()).unwrap_or(0);
+        let x = match s.r.below(4) {
+            0 => cur,
+            1 => cur + 1 + s.r.below(200_000),
+            2 => cur.saturating_sub(1 + s.r.below(2_000)),
+            _ => *s.r.pick(&[0u64, 65_536, 300_000, 5_000_000]),
+        };
+        if s.r.bool() {
+            g!(s, "set_fee(late)", tb.set_fee(&BigNum::from(x)));
+            fee_mode = FeeMode::Exact(x);
+        } else {
+            g!(s, "set_min_fee(late)", tb.set_min_fee(&BigNum::from(x)));
+            fee_mode = FeeMode::MinFee(x);
+        }
+        s.log.push(format!("after balancing (fee {}): fee mode {:?}", cur, fee_mode));
+    }
+
     // ---------------------------------------------------------------- build
     let build_result: Result<Transaction, String> = if balance_result.is_ok() {
         g!(s, "build_tx", tb.build_tx()).map(|r| r.map_err(|e| format!("{:?}", e))).unwrap_or(Err("PANIC".into()))
@@ -1695,6 +1739,7 @@ pub fn run_scenario(r: &mut Rng, ring: &KeyRing, f: Focus) -> Option<Outcome> {
         markers: if s.unit_redeemers { vec![] } else { s.markers },
         log: s.log,
         fee_mode,
+        fee_fixed_at_balancing,
         inputs_at_hash_time: cost_models.as_ref().map(|x| x.1.clone()),
         cost_models: cost_models.map(|x| x.0),
         script_hash_called_last: !hash_after || true,
